@@ -30,12 +30,19 @@ def so():
     return _c['so']
 
 
+def so_sel():
+    if 'sosel' not in _c:
+        extra = 'static double vf_d[16]; static int vf_k = 0;\nvoid vf_set_dist(int i, double v) { vf_d[i] = v; vf_k = 0; }\ndouble vfstub_mju_rayGeom(void) { return vf_d[vf_k++]; }\n'
+        _c['sosel'] = build.native_lib(['src/engine/engine_ray.c'], SUP, name='ray_sel', extra_c=extra, redirect=['mju_rayGeom'])
+    return _c['sosel']
+
+
 def lay():
     if 'l' not in _c: _c['l'] = build.Layout()
     return _c['l']
 
 
-def prepare(tier): mod(); so(); lay()
+def prepare(tier): mod(); so(); so_sel(); lay()
 
 
 import fractions
@@ -166,10 +173,25 @@ def unit_mjray(tier, ngeom):
         cand = [(g, dist_of[g]) for g in order]
         anyhit = z3.Or(*[dv >= 0 for _, dv in cand]) if cand else z3.BoolVal(False)
         best = z3.And(*[z3.Or(dv < 0, r.value <= dv) for _, dv in cand]) if cand else z3.BoolVal(True)
+        import ctypes
+        def mk_replay(cand=cand, retv=r.value, gidv=gid):
+            def rp(model, witness):
+                vals = w.concretise(model)
+                dv = [W.evalnum(model, d_) for _, d_ in cand]
+                def pre_(lib, nw):
+                    lib.vf_set_dist.argtypes = [ctypes.c_int, ctypes.c_double]
+                    for i_, v_ in enumerate(dv): lib.vf_set_dist(i_, float(v_))
+                nargs = [('ptr', (M.o, 0)), ('ptr', (D.o, 0)), ('ptr', (po, 0)), ('ptr', (vo, 0)), ('ptr', None), ('u8', 1), ('i32', be), ('ptr', (go, 0)), ('ptr', None)]
+                st_ = W.native_call(so_sel(), 'mj_ray', w, vals, nargs, 'f64', [('geomid', go, 0, 'i32')], pre=pre_)
+                if st_[0] != 'ok': return False, {'native': st_[0], 'detail': str(st_[1:])[:200]}
+                ok = W.close(W.evalnum(model, retv), st_[1]['ret'], 'real') and W.close(W.evalnum(model, gidv), st_[1]['out']['geomid'], 'bv')
+                return ok, {'per-geom distances (kept geoms, in order)': dv, 'native_ret': st_[1]['ret'], 'native_geomid': st_[1]['out']['geomid']}
+            return rp
+        rp_ = mk_replay()
         ck.prove('mj_ray n=%d: returns the minimum non-negative per-geom distance, -1 iff no kept geom is hit' % ngeom, pc,
-                 z3.If(anyhit, z3.And(r.value >= 0, best, z3.Or(*[r.value == dv for _, dv in cand]) if cand else z3.BoolVal(False)), r.value == -1), site='mj_ray:nearest')
+                 z3.If(anyhit, z3.And(r.value >= 0, best, z3.Or(*[r.value == dv for _, dv in cand]) if cand else z3.BoolVal(False)), r.value == -1), site='mj_ray:nearest', replay=rp_)
         idclaim = z3.If(anyhit, z3.Or(*[z3.And(gid == g, dv == r.value, dv >= 0) for g, dv in cand]) if cand else z3.BoolVal(False), gid == -1)
-        ck.prove('mj_ray n=%d: geomid is the geom attaining the returned distance, -1 iff nothing is hit' % ngeom, pc, idclaim, site='mj_ray:geomid')
+        ck.prove('mj_ray n=%d: geomid is the geom attaining the returned distance, -1 iff nothing is hit' % ngeom, pc, idclaim, site='mj_ray:geomid', replay=rp_)
     ck.reach('mj_ray precondition', pre)
     ck.memory_obligations(res)
     return ck
